@@ -1,4 +1,4 @@
-(* CvProof .. CvProof7: invariants of Model/CvModel.v (nsync condition variables, current code with the F3 and F15 repairs) and
+(* CvProof .. CvProof7: invariants of Model/CvModel.v (nsync condition variables, current code with the F3, F15 and F16 repairs) and
    the lemmas used by Props/Properties_C04.v and Props/Properties_C05cv.v.
 
    CvProof.v   Layer T  facts local to one wait call and the log of returns (mode held at return, reason of the return
@@ -14,6 +14,7 @@
    CvProof4.v  Layer W  semaphore / owed-post accounting: no wake-up is lost; progress ([no_stuck_reachable])  -> WInv
                Layer N  the same for the sleepers of nsync_wait_n                                              -> NInv
    CvProof5.v  Layer K  the run-level account of every signal / broadcast call (ghost history, [wlog])         -> KInv
+               Layer G  wake_waiters transfers only native waiters associated with the mutex (F16)             -> GInv
    CvProof6.v  Layer D  CV_NON_EMPTY while somebody is inside a spinlock section                               -> DInv
                Layer L  the lock field of the abstract mutex word counts the holders of the model              -> LInv
                Layer F  the mutex spinlock section of wake_waiters: owner, spinlock bit, clear_on_release against the
@@ -182,7 +183,7 @@ Lemma xfer_rest_part rs fca fw q a b :
   part q (fst (fst (fst (xfer_rest rs fca fw q a b)))) (snd (fst (fst (xfer_rest rs fca fw q a b)))).
 Proof.
   revert a b; induction q as [|p q IH]; intros a b; simpl; [apply part_nil|].
-  destruct (negb (is_mucv (rs p))).
+  destruct (negb (is_mucv (rs p)) || negb (cv_mu (rs p))).
   - specialize (IH a b). destruct (xfer_rest rs fca fw q a b) as [[[m s] a'] b']. simpl in *. now apply part_cons_r.
   - destruct (fca || fw || (is_mucv (rs p) && is_W (l_type (rs p)))).
     + specialize (IH (a || (is_mucv (rs p) && is_W (l_type (rs p)))) b).
@@ -194,10 +195,26 @@ Lemma xfer_rest_native rs fca fw q a b x : In x (fst (fst (fst (xfer_rest rs fca
 Proof.
   revert a b; induction q as [|p q IH]; intros a b; simpl; [tauto|].
   destruct (is_mucv (rs p)) eqn:E; simpl.
-  - destruct (fca || fw || is_W (l_type (rs p))).
+  - destruct (negb (cv_mu (rs p))).
+    { specialize (IH a b). destruct (xfer_rest rs fca fw q a b) as [[[m s] a'] b']. simpl in *. auto. }
+    destruct (fca || fw || is_W (l_type (rs p))).
     + specialize (IH (a || is_W (l_type (rs p))) b). destruct (xfer_rest rs fca fw q _ b) as [[[m s] a'] b']. simpl in *.
       intros [->|H]; auto.
     + specialize (IH a (b || negb (is_W (l_type (rs p))))). destruct (xfer_rest rs fca fw q a _) as [[[m s] a'] b']. simpl in *. auto.
+  - specialize (IH a b). destruct (xfer_rest rs fca fw q a b) as [[[m s] a'] b']. simpl in *. auto.
+Qed.
+(* ... and (the repair of F16) associated with the mutex: a waiter of nsync_cv_wait_with_deadline_generic with the caller's own
+   lock routines (cv_mu == NULL) is never moved to the mutex queue *)
+Lemma xfer_rest_assoc rs fca fw q a b x : In x (fst (fst (fst (xfer_rest rs fca fw q a b)))) -> is_mucv (rs x) = true /\ cv_mu (rs x) = true.
+Proof.
+  revert a b; induction q as [|p q IH]; intros a b; simpl; [tauto|].
+  destruct (is_mucv (rs p)) eqn:E; simpl.
+  - destruct (cv_mu (rs p)) eqn:E2; simpl.
+    + destruct (fca || fw || is_W (l_type (rs p))).
+      * specialize (IH (a || is_W (l_type (rs p))) b). destruct (xfer_rest rs fca fw q _ b) as [[[m s] a'] b']. simpl in *.
+        intros [->|H]; auto.
+      * specialize (IH a (b || negb (is_W (l_type (rs p))))). destruct (xfer_rest rs fca fw q a _) as [[[m s] a'] b']. simpl in *. auto.
+    + specialize (IH a b). destruct (xfer_rest rs fca fw q a b) as [[[m s] a'] b']. simpl in *. auto.
   - specialize (IH a b). destruct (xfer_rest rs fca fw q a b) as [[[m s] a'] b']. simpl in *. auto.
 Qed.
 Lemma xfer_part rs fca wake : part wake (fst (fst (xfer rs fca wake))) (snd (fst (xfer rs fca wake))).
@@ -212,6 +229,15 @@ Lemma xfer_native rs fca f rest x : is_mucv (rs f) = true -> In x (fst (fst (xfe
 Proof.
   intros Hf. simpl.
   pose proof (xfer_rest_native rs fca (is_W (l_type (rs f))) rest (if fca then is_W (l_type (rs f)) else false)
+                (if fca then false else negb (is_W (l_type (rs f)))) x) as H.
+  destruct (xfer_rest rs fca _ rest _ _) as [[[m s] a'] b']. simpl in *.
+  destruct fca; simpl; [intros [<-|Hx]; auto | auto].
+Qed.
+Lemma xfer_assoc rs fca f rest x : is_mucv (rs f) = true -> cv_mu (rs f) = true -> In x (fst (fst (xfer rs fca (f :: rest)))) ->
+  is_mucv (rs x) = true /\ cv_mu (rs x) = true.
+Proof.
+  intros Hf Hc. simpl.
+  pose proof (xfer_rest_assoc rs fca (is_W (l_type (rs f))) rest (if fca then is_W (l_type (rs f)) else false)
                 (if fca then false else negb (is_W (l_type (rs f)))) x) as H.
   destruct (xfer_rest rs fca _ rest _ _) as [[[m s] a'] b']. simpl in *.
   destruct fca; simpl; [intros [<-|Hx]; auto | auto].
@@ -308,7 +334,7 @@ Definition so_ok (clk : Z) (ntf : bool) (l : wl) : Prop :=
 Definition wl_ok (clk : Z) (ntf : bool) (l : wl) : Prop :=
   so_ok clk ntf l /\ (w_out l = 0 \/ w_out l = w_so l) /\ w_pafter l = 0.
 Definition lt_ok (x : rec) (l : wl) : Prop :=
-  if w_gen l then w_rdr l = false else l_type x = Some (mode_of (w_rdr l)).
+  if w_gen l then True else l_type x = Some (mode_of (w_rdr l)).
 
 (* phase of a wait: 0 before the mode is captured, 1 until the mutex is released, 2 afterwards *)
 Definition wphase (p : pc) : option (nat * wl) :=
